@@ -232,4 +232,23 @@ LawResolved(bound_e) == LawThreshold(bound_e) + LawMargin <= LawViolationFloor
 LawVerdict(resid_e, bound_e) ==
   IF ~LawResolved(bound_e) THEN "unresolved"
   ELSE IF resid_e <= LawThreshold(bound_e) THEN "pass" ELSE "fail"
+-----------------------------------------------------------------------------
+(* Part 4: C35 -- Mellin inversion of the basis along the solver's path (mode L). *)
+(* A cell fixes contour, degree and the class of the random logarithmic grid.      *)
+(* For every inversion node k (x = 1 excluded: the solver never inverts there) the *)
+(* harness reports  k4 = floor(4 * r_k * dmin)  with r_k the scale of the Talbot    *)
+(* path at that node (0.4*16/(0.1 - log x_k)) and dmin the smallest node spacing in *)
+(* log x, and the decade of  max_j |inverse_jk - delta_jk|.  The truncated contour  *)
+(* (cut 0.05) resolves a basis function only when r_k * dmin is large enough:       *)
+(* measured on the unchanged tree (2093 nodes, 300 grids): error <= 6e-4 for        *)
+(* r_k*dmin >= 0.5, but up to O(1) below 0.25.  Nodes below 0.5 are unresolved.     *)
+C35Contours == {"ns", "singlet"}
+C35Sizes == {<<4, 6>>, <<7, 12>>}
+C35Xmin == {<<-6, -3>>, <<-3, -1>>}
+C35Cells == [contour : C35Contours, deg : 1..4, size : C35Sizes, xmin : C35Xmin]
+C35Class == -2                       \* 1e-2 on a 0/1 answer
+C35ResolvedFrom == 2                 \* k4 >= 2, i.e. r_k * dmin >= 0.5
+C35PointVerdict(pt) ==               \* pt = <<k4, resid_e>>
+  IF pt[1] < C35ResolvedFrom THEN "unresolved"
+  ELSE IF pt[2] <= C35Class THEN "pass" ELSE "fail"
 =============================================================================
